@@ -76,7 +76,7 @@ func (m *verifC06Machine) loop(qi int, op *vs.Op, storeLevelFailed bool) {
 	verifC06InBubble(m.f, func(f verifkit.F) {
 		s2 := verifC06NewStore(f)
 		for _, o := range prefix {
-			vs.Apply(s2, o)
+			vs.C06Apply(s2, o)
 		}
 		o0, err := q.Run(s2, memdb.NewWatchSet())
 		if err != nil || o0.NoIdx {
@@ -113,7 +113,7 @@ func (m *verifC06Machine) loop(qi int, op *vs.Op, storeLevelFailed bool) {
 			return
 		default:
 		}
-		vs.Apply(s2, op)
+		vs.C06Apply(s2, op)
 		synctest.Wait() // every goroutine of the bubble is durably blocked: G returned, or it will not without another write
 		transition := "changed"
 		if want.NotFound && !o0.NotFound {
